@@ -202,3 +202,32 @@ pub fn run_session(
         terminated,
     })
 }
+
+// ------------------------------------------------------------------------------------------
+// store actor helpers
+// ------------------------------------------------------------------------------------------
+
+use iroh_docs::actor::SyncHandle;
+
+/// `get_many` through the store actor; `Err` carries the error the actor streamed.
+pub async fn handle_get_many(
+    h: &SyncHandle,
+    ns: NamespaceId,
+    q: Query,
+) -> Result<Vec<SignedEntry>, String> {
+    let (tx, mut rx) = irpc::channel::mpsc::channel(1024);
+    h.get_many(ns, q, tx).await.map_err(|e| format!("{e:#}"))?;
+    let mut out = vec![];
+    loop {
+        match rx.recv().await {
+            Ok(Some(Ok(e))) => out.push(e),
+            Ok(Some(Err(e))) => return Err(format!("{e}")),
+            Ok(None) => return Ok(out),
+            Err(e) => return Err(format!("recv: {e}")),
+        }
+    }
+}
+
+pub async fn handle_dump(h: &SyncHandle, ns: NamespaceId) -> Result<Vec<SignedEntry>, String> {
+    handle_get_many(h, ns, Query::all().include_empty().build()).await
+}
